@@ -176,6 +176,7 @@ package auth
 //@   loop 1
 //@     invariant len(proxyRootDomains) == $i
 //@     invariant forall j :: 0 <= j && j < $i ==> proxyRootDomains[j] == (hasPrefix(D[j], ".") ? D[j] : "." + D[j])
+//@   ensures authenticator_or_error: (result.1 == nil ==> result.0 != nil) && (result.1 != nil ==> result.0 == nil)
 //@   sink [C08] gates_are_built_over_the_configured_proxy_credentials: newMux requires $arg0.ProxyClientID == old(config.ClientConfigs["proxy"].ID) && $arg0.ProxyClientSecret == old(config.ClientConfigs["proxy"].Secret)
 //@ func newProvider(pc ProviderConfig, sc SessionConfig) (providers.Provider, error)
 //@   modifies everything
